@@ -328,11 +328,29 @@ func TestC20Child(t *testing.T) {
 		}
 	case "history":
 		e := &c20Encoders{reuse: true, bin: ttlv.NewTTLVEncoder(), xml: ttlv.NewXMLEncoder(), json: ttlv.NewJSONEncoder(), text: ttlv.NewTextEncoder(true)}
+		// the history child also decodes every input into ONE destination per kind that it keeps using (an application's
+		// reused message variable): what a later, fresh decode returns does not depend on that
+		reused := map[string]any{}
+		redecode := func(j c20Job) {
+			defer func() { _ = recover() }()
+			if j.Kind == "failing" {
+				return
+			}
+			d, ok := reused[j.Kind]
+			if !ok {
+				d = c20Fresh(j.Kind)
+				reused[j.Kind] = d
+			}
+			raw, _ := hex.DecodeString(j.Hex)
+			_ = ttlv.UnmarshalTTLV(raw, d)
+		}
 		for _, i := range p.Prefix {
+			redecode(p.Jobs[i])
 			_ = c20Exec(p.Jobs[i], e)
 		}
 		// reversed order, on the same reused encoders
 		for i := len(p.Jobs) - 1; i >= 0; i-- {
+			redecode(p.Jobs[i])
 			out[i] = c20Exec(p.Jobs[i], e)
 		}
 	}
@@ -418,7 +436,7 @@ func tail(s string) string {
 func TestC20History(t *testing.T) {
 	const name = "TestC20History"
 	rec := evid.New("C20", name, "work lists of 2..14 encode/decode jobs (requests and responses of versions 1.0..1.4 and, one in five, of a foreign version 0.x/2.x/3.x, generic values, an application structure that carries a protocol version as plain data, header-less typed values - CryptographicParameters with later-version fields - of mixed versions, one job in three with its dates placed in UTC / fixed zones after decoding (one date in four repeating the instant of the previous one), and jobs whose calls fail: a request made unencodable by a negative interval, truncated documents) executed by three fresh child processes of the test binary: sequentially (reference), "+
-		"concurrently from a cold start with G in {2,8,32} goroutines released together in a drawn permutation, the input bytes of some jobs (always those of a structure of long big integers of both signs) existing once and being decoded by four goroutines at the same time, and on one reused, cleared encoder per encoding after a drawn prefix of unrelated jobs and in reverse order; "+
+		"concurrently from a cold start with G in {2,8,32} goroutines released together in a drawn permutation, the input bytes of some jobs (always those of a structure of long big integers of both signs) existing once and being decoded by four goroutines at the same time, and on one reused, cleared encoder per encoding after a drawn prefix of unrelated jobs and in reverse order (that child also decodes every input into one destination per kind that it keeps using); "+
 		"oracle: per-job digest of the four encodings and of the binary re-encoding after the XML and JSON round trips is identical across the children, every child's binary encoding equals the one the reference encoder predicts for the value alone, and in every child the XML and JSON documents of a typed message decode back to that binary encoding; the race-built variant additionally fails on any reported data race; "+
 		"non-trivial = the list holds messages of at least two different protocol versions or two different kinds; distinct by plan").Attach(t)
 	dir := t.TempDir()
